@@ -240,10 +240,13 @@ def run(rep: common.Report):
     if tu is not None:
         d = tu.args.defaults
         src = ast.unparse(tu)
-        if d and ast.literal_eval(d[-1]) == "utf-8-sig" and "return value.decode(encoding)" in src and "if isinstance(value, str):" in src:
+        body_tu = [ast.unparse(x) for x in source.strip_docstring(tu.body)]
+        exact_tu = ["if isinstance(value, str):\n    return value\nelif isinstance(value, bytes):\n    try:\n        return value.decode(encoding)\n"
+                    "    except UnicodeDecodeError:\n        return value.decode('utf-8-sig', 'replace')\nelse:\n    return value"]
+        if d and ast.literal_eval(d[-1]) == "utf-8-sig" and body_tu == exact_tu:
             ob.status, ob.detail = PROVED, "default encoding 'utf-8-sig'; str input is returned unchanged"
         else:
-            ob.status, ob.detail = REFUTED, "to_unicode no longer decodes bytes with utf-8-sig by default"
+            ob.status, ob.detail = REFUTED, "to_unicode is no longer exactly: str unchanged, bytes decoded with the default 'utf-8-sig' (replace on error)"
             ob.shape_only = True
     rep.add(ob)
     t = taint_obligation()
